@@ -17,6 +17,17 @@ mod channel {
     pub(crate) mod queue;
     #[path = "../qscen.rs"]
     pub(crate) mod qscen;
+    /// stand-in for channel::SendError (channel.rs itself is exercised through the public API by simh)
+    #[derive(Clone, Copy, Debug, PartialEq, Eq)]
+    pub(crate) struct SendError;
+}
+mod ports {
+    pub(crate) mod output {
+        pub(crate) mod broadcaster;
+        pub(crate) mod sender;
+        #[path = "../../bscen.rs"]
+        pub(crate) mod bscen;
+    }
 }
 mod executor {
     pub(crate) mod task;
